@@ -146,8 +146,10 @@ def run(ctx, config='rel-all'):
         npairs += 1
         I2, r2 = arena.run_fn(ctx, sib['id'], config)
         s2 = panic_sites(I2, r2)
-        extra = {k: v for k, v in s2.items() if k not in tsites}
-        missing = {k: v for k, v in tsites.items() if k not in s2}
+        # a site inside the method's own body / closures is the same site in the sibling's own body / closures
+        tn, sn = arena.short(db.bodies[allb[tname]['id']]['id']) if tname in allb else 'Bump::' + tname, arena.short(sib['id'])
+        extra = {k: v for k, v in s2.items() if k not in tsites and not (k[0] == sn and (tn, k[1]) in tsites)}
+        missing = {k: v for k, v in tsites.items() if k not in s2 and not (k[0] == tn and (sn, k[1]) in s2)}
         bad = False
         for k, evs in extra.items():
             if k[1] == 'oom' or k[1].endswith('oom'):
